@@ -259,7 +259,7 @@ pub fn total(seed: u64, thorough: bool) -> Vec<BuildSpec> {
         let version = [None, Some(1), Some(40), None, Some(1 + i % 40)][(i / 7) % 5];
         let mask = [None, Some(0), Some(7), None][(i / 11) % 4];
         let mut s = spec(p, ecl, mode, version, mask, format!("len:{kind}:{}", (i / 7) % 5));
-        s.lite = !(n <= 60 || i % 16 == 0);
+        s.lite = !(thorough || n <= 60 || i % 16 == 0);
         out.push(s);
     }
     // lengths around 2^16 and far beyond, constant and mixed content
@@ -366,6 +366,22 @@ pub fn candgroups(seed: u64, thorough: bool) -> Vec<BuildSpec> {
             let mut s = spec(p.clone(), Some(e), Some(mode), Some(v), if m < 8 { Some(m) } else { None }, format!("candgroup:{v}:{e}:{m}"));
             s.grp = 5_000_000 + g as u64;
             out.push(s);
+        }
+    }
+    out
+}
+
+/// C01 / C06: every payload length in a contiguous range, per mode, fully decoded (no gaps between the boundary lengths of `cells`)
+pub fn lengths(seed: u64, thorough: bool) -> Vec<BuildSpec> {
+    let mut out = Vec::new();
+    let mut r = rng(seed, 9);
+    let top = if thorough { 1200 } else { 260 };
+    for mode in 0..3usize {
+        for n in 0..=top {
+            let i = n + mode;
+            let ecl = [None, Some(0usize), Some(1), Some(3), Some(2)][i % 5];
+            let auto_mode = i % 3 == 0;
+            out.push(spec(payload(&mut r, mode, n, auto_mode), ecl, if auto_mode { None } else { Some(mode) }, None, if i % 7 == 0 { Some(i % 8) } else { None }, format!("length:{mode}")));
         }
     }
     out
